@@ -171,6 +171,7 @@ var leafTypes = map[string]reflect.Type{
 var keyTypes = map[string]reflect.Type{
 	"str": reflect.TypeOf(""), "int": reflect.TypeOf(int(0)), "i8": reflect.TypeOf(int8(0)), "u8": reflect.TypeOf(uint8(0)),
 	"i64": reflect.TypeOf(int64(0)), "u32": reflect.TypeOf(uint32(0)), "txt": reflect.TypeOf(TKey{}),
+	"i16": reflect.TypeOf(int16(0)), "i32": reflect.TypeOf(int32(0)), "u16": reflect.TypeOf(uint16(0)), "u64": reflect.TypeOf(uint64(0)), "uint": reflect.TypeOf(uint(0)),
 }
 
 func typeSig(t map[string]interface{}) string {
@@ -425,6 +426,9 @@ func build(t, v map[string]interface{}) reflect.Value {
 			out.Index(i).Set(build(rec(t["e"]), rec(e)))
 		}
 	case "map":
+		if g == "bm" {
+			return bigMapHook(t, v)
+		}
 		m := reflect.MakeMap(rt)
 		for _, e := range seqOf(v["m"]) {
 			m.SetMapIndex(buildKey(sstr(t["key"]), sstr(rec(e)["k"])), build(rec(t["e"]), rec(rec(e)["v"])))
@@ -446,6 +450,8 @@ func build(t, v map[string]interface{}) reflect.Value {
 	}
 	return out
 }
+
+var bigMapHook func(t, v map[string]interface{}) reflect.Value
 
 var zooBuild = map[string]func(rt reflect.Type, v map[string]interface{}) reflect.Value{}
 
